@@ -1,48 +1,54 @@
 import OjgVerif.Reflect.RegLemmas
+import OjgVerif.Gen.Reflect
 /-! # C16 — Recompose is independent of the history (PARTIAL: registry logic on a model)
 
 Go types are data; `Reflect/Registry.lean` models `alt/recomposer.go` (`registerComposer`,
 `indexType`, `recomp`, `setValue`, `recompAny`) with the registry keyed as the code keys it: bare
-type name AND `pkgpath/name`. Proved here, for every datum, fuel and create key:
+type name AND `pkgpath/name`. The flag `bareName` of the model is `false` for the code as it is NOW
+(/repo 6d5fecb: a composer found under a name is used only for the type it was made for;
+`current_lookup_in_source` ties that to the source) and `true` for the code BEFORE that commit.
+Proved here, for every datum, fuel and create key:
 
-* `history_independent_current`: for the code AS IT IS, the outcome of recomposing a type does not
-  depend on the history — PROVIDED no two struct types that are met share a bare or full name
-  (`NameInj` over a universe `U` closed under components), no struct embeds a pointer (`goodT`) and
-  the target has no `interface{}` slot (`noIface`: create-key names are resolved against the
-  registry by design). Under these hypotheses the outcome is `recomposePure`: every struct decoded
-  with its own field index (`recompose_current_eq_pure`).
-* `history_independent_repaired`: with the proposed repair (a composer found under a name is used only
-  if it was made for this very type) the same holds WITHOUT the name hypothesis.
-* `C16_history_full_false`: at full strength the statement is false for the code as it is — a second
-  struct literal type is decoded with the first one's index; `nested_anonymous_loses_fields`: a
-  struct literal nested in a struct literal loses its fields without any history, and
-  `repair_fixes_witnesses`: the repaired lookup decodes both correctly.
+* `history_independent_current` (`C16_history_partial`), `recompose_current_eq_pure`: for the code as it
+  is now the outcome of recomposing a type does not depend on the history and equals
+  `recomposePure` (every struct decoded with its own field index) — for types in which no struct
+  embeds a pointer (`goodT`) and without `interface{}` slot (`noIface`: create-key names are resolved
+  against the registry by design). No condition on names.
+* `C16_history_full_false`: at full strength the history clause is still false now — a struct that
+  embeds a pointer makes `registerComposer` panic half way (known finding `C16-embedded-pointer`), so
+  a type whose field walk meets it fails on a fresh recomposer and succeeds on one that tried before.
+* `history_independent_before`, `recompose_before_eq_pure`: the code before 6d5fecb needed in
+  addition that no two struct types met share a bare or full name (`NameInj` over a universe closed
+  under components; instance `uex_her`, `uex_inj`); `history_witness_before`,
+  `C16_history_full_before_false`, `nested_anonymous_lost_fields_before`: it decoded a second struct
+  literal type with the first one's index and lost the fields of a nested struct literal without
+  any history; `current_decodes_witnesses`: the code as it is now decodes both correctly.
 
 Not proved (checked by the oracle of the harness only): that `recomposePure` inverts `Decompose`
 and `Unmarshal` inverts `Marshal` on the value level. `reflect` is below the model. -/
 namespace OjgVerif.C16
 open OjgVerif OjgVerif.Reflect
 
-/-! ## the repaired lookup: no hypothesis on names -/
+/-! ## the code as it is now (lookup guarded by the type): no hypothesis on names -/
 
-theorem lookupOK_repaired : LookupOK (fun _ _ => True) (fun t => goodT t = true) false := by
+theorem lookupOK_current_guard : LookupOK (fun _ _ => True) (fun t => goodT t = true) false := by
   intro k n p fs T' _ _ _ _ hb; cases hb
 
-/-- with the repair, after ANY two histories of good types a good type without interface slots is
-recomposed in the same way — as with the ideal registry -/
-theorem recompose_repaired_eq_pure (ck : Bytes) (h : List Event)
+/-- after ANY history of good types a good type without interface slots is recomposed as with the
+ideal registry -/
+theorem recompose_current_eq_pure (ck : Bytes) (h : List Event)
     (hev : ∀ e ∈ h, EventOK (fun t => goodT t = true) e) (t : GoType) (hg : goodT t = true) (hn : noIface t = true) (j : JV) :
     recompose false ck (regAfter false ck h) t j = recomposePure ck t j :=
   recompose_eq_pure (fun _ _ => True) (fun t => goodT t = true) false goodT_her (fun _ h => h)
-    (fun _ _ _ _ => ⟨trivial, trivial⟩) lookupOK_repaired ck h hev t hg hn j
+    (fun _ _ _ _ => ⟨trivial, trivial⟩) lookupOK_current_guard ck h hev t hg hn j
 
-theorem history_independent_repaired (ck : Bytes) (h₁ h₂ : List Event)
+theorem history_independent_current (ck : Bytes) (h₁ h₂ : List Event)
     (hev₁ : ∀ e ∈ h₁, EventOK (fun t => goodT t = true) e) (hev₂ : ∀ e ∈ h₂, EventOK (fun t => goodT t = true) e)
     (t : GoType) (hg : goodT t = true) (hn : noIface t = true) (j : JV) :
     recompose false ck (regAfter false ck h₁) t j = recompose false ck (regAfter false ck h₂) t j := by
-  rw [recompose_repaired_eq_pure ck h₁ hev₁ t hg hn, recompose_repaired_eq_pure ck h₂ hev₂ t hg hn]
+  rw [recompose_current_eq_pure ck h₁ hev₁ t hg hn, recompose_current_eq_pure ck h₂ hev₂ t hg hn]
 
-/-! ## the code as it is: names must determine types -/
+/-! ## the code before 6d5fecb (lookup by bare name): names had to determine types -/
 
 /-- among the types of `U`, a bare or full name belongs to one struct type only -/
 def NameInj (U : GoType → Prop) : Prop :=
@@ -64,7 +70,7 @@ theorem qu_her {U : GoType → Prop} (hU : Her U) : Her (QU U) := by
   · intro e h; exact ⟨goodT_her.ptr e h.1, hU.ptr e h.2⟩
   · intro n p fs i ht h hi; exact ⟨goodT_her.field n p fs i ht h.1 hi, hU.field n p fs i ht h.2 hi⟩
 
-theorem lookupOK_current {U : GoType → Prop} (hinj : NameInj U) : LookupOK KName (QU U) true := by
+theorem lookupOK_before {U : GoType → Prop} (hinj : NameInj U) : LookupOK KName (QU U) true := by
   intro k n p fs T' hk hq hq' hK _
   obtain ⟨n', p', fs', rfl, hk'⟩ := hK
   apply hinj n p fs n' p' fs' hq.2 hq'.2
@@ -74,18 +80,18 @@ theorem lookupOK_current {U : GoType → Prop} (hinj : NameInj U) : LookupOK KNa
   · exact Or.inr (Or.inl h.symm)
   · exact Or.inr (Or.inr (Or.inr h.symm))
 
-/-- **C16 (history), for the code as it is, excluding exactly the name collisions.** -/
-theorem recompose_current_eq_pure (U : GoType → Prop) (hU : Her U) (hinj : NameInj U) (ck : Bytes) (h : List Event)
+/-- C16 (history) for the code before 6d5fecb, excluding exactly the name collisions -/
+theorem recompose_before_eq_pure (U : GoType → Prop) (hU : Her U) (hinj : NameInj U) (ck : Bytes) (h : List Event)
     (hev : ∀ e ∈ h, EventOK (QU U) e) (t : GoType) (hq : QU U t) (hn : noIface t = true) (j : JV) :
     recompose true ck (regAfter true ck h) t j = recomposePure ck t j :=
   recompose_eq_pure KName (QU U) true (qu_her hU) (fun _ h => h.1)
-    (fun n p fs _ => ⟨⟨n, p, fs, rfl, Or.inl rfl⟩, ⟨n, p, fs, rfl, Or.inr rfl⟩⟩) (lookupOK_current hinj) ck h hev t hq hn j
+    (fun n p fs _ => ⟨⟨n, p, fs, rfl, Or.inl rfl⟩, ⟨n, p, fs, rfl, Or.inr rfl⟩⟩) (lookupOK_before hinj) ck h hev t hq hn j
 
-theorem history_independent_current (U : GoType → Prop) (hU : Her U) (hinj : NameInj U) (ck : Bytes) (h₁ h₂ : List Event)
+theorem history_independent_before (U : GoType → Prop) (hU : Her U) (hinj : NameInj U) (ck : Bytes) (h₁ h₂ : List Event)
     (hev₁ : ∀ e ∈ h₁, EventOK (QU U) e) (hev₂ : ∀ e ∈ h₂, EventOK (QU U) e)
     (t : GoType) (hq : QU U t) (hn : noIface t = true) (j : JV) :
     recompose true ck (regAfter true ck h₁) t j = recompose true ck (regAfter true ck h₂) t j := by
-  rw [recompose_current_eq_pure U hU hinj ck h₁ hev₁ t hq hn, recompose_current_eq_pure U hU hinj ck h₂ hev₂ t hq hn]
+  rw [recompose_before_eq_pure U hU hinj ck h₁ hev₁ t hq hn, recompose_before_eq_pure U hU hinj ck h₂ hev₂ t hq hn]
 
 /-! ### the hypotheses are not vacuous: two named types of one package -/
 
@@ -133,9 +139,9 @@ theorem uex_inj : NameInj Uex := by
        revert hk
        decide +kernel)
 
-/-- the theorem about the code as it is applies: `pa.T` after `pa.Leaf` was registered -/
+/-- the theorem about the code before 6d5fecb applies: `pa.T` after `pa.Leaf` was registered -/
 example (j : JV) : recompose true [] (regAfter true [] [.register sLeaf]) sT j = recompose true [] (regAfter true [] []) sT j :=
-  history_independent_current Uex uex_her uex_inj [] [.register sLeaf] []
+  history_independent_before Uex uex_her uex_inj [] [.register sLeaf] []
     (by
       intro e he
       simp only [List.mem_singleton] at he
@@ -147,29 +153,77 @@ example (j : JV) : recompose true [] (regAfter true [] [.register sLeaf]) sT j =
     (by intro e he; cases he)
     sT ⟨by decide +kernel, Or.inl rfl⟩ (by decide +kernel) j
 
-/-! ## the code as it is, at full strength -/
+/-! ## full strength -/
 
-/-- C16's second sentence at full strength -/
-def C16_history_full : Prop :=
+/-- C16's second sentence at full strength, for the lookup `b` (`false`: the code as it is now) -/
+def C16_history_full_for (b : Bool) : Prop :=
   ∀ (ck : Bytes) (h₁ h₂ : List Event) (t : GoType) (j : JV),
-    recompose true ck (regAfter true ck h₁) t j = recompose true ck (regAfter true ck h₂) t j
+    recompose b ck (regAfter b ck h₁) t j = recompose b ck (regAfter b ck h₂) t j
+
+def C16_history_full : Prop := C16_history_full_for false
+def C16_history_full_before : Prop := C16_history_full_for true
+
+/-- **C16 (history), partial, for the code as it is now**: excluded are exactly embedded pointers
+(`goodT`) and interface slots (`noIface`) -/
+theorem C16_history_partial (ck : Bytes) (h₁ h₂ : List Event)
+    (hev₁ : ∀ e ∈ h₁, EventOK (fun t => goodT t = true) e) (hev₂ : ∀ e ∈ h₂, EventOK (fun t => goodT t = true) e)
+    (t : GoType) (hg : goodT t = true) (hn : noIface t = true) (j : JV) :
+    recompose false ck (regAfter false ck h₁) t j = recompose false ck (regAfter false ck h₂) t j :=
+  history_independent_current ck h₁ h₂ hev₁ hev₂ t hg hn j
+
+/-- `type E struct{ Q int }; type U struct{ *E }; type T struct{ A int; P *U }` -/
+def embU : GoType := .struct "U".toUTF8.toList [] [(⟨"E".toUTF8.toList, [], true⟩, .ptr (.struct "E".toUTF8.toList [] [(⟨"Q".toUTF8.toList, [], false⟩, .int 0)]))]
+def embT : GoType := .struct "T".toUTF8.toList [] [(⟨"A".toUTF8.toList, [], false⟩, .int 0), (⟨"P".toUTF8.toList, [], false⟩, .ptr embU)]
+def datumT : JV := .obj [("a".toUTF8.toList, .int 1)]
+
+def slotIsPanic : Slot → Bool
+  | .panic => true
+  | _ => false
+
+/-- on a fresh recomposer `Recompose({"a":1}, &T{})` fails: registering `T` walks to `U`, whose embedded
+pointer makes `indexType` panic; `T` itself was entered before the panic, so the SAME call on a
+recomposer that tried before finds `T`, never looks at `U` (`P` is absent) and succeeds -/
+theorem history_witness :
+    slotIsPanic (recompose false [] (regAfter false [] []) embT datumT) = true ∧
+    slotIs (recompose false [] (regAfter false [] [.register embT]) embT datumT) (.struct [.int 1, .nilPtr]) = true := by
+  decide +kernel
+
+theorem C16_history_full_false : ¬ C16_history_full := by
+  intro h
+  have h1 := h [] [] [.register embT] embT datumT
+  have hw := history_witness
+  rw [h1] at hw
+  have : slotIsPanic (recompose false [] (regAfter false [] [.register embT]) embT datumT) = false := by decide +kernel
+  rw [this] at hw
+  exact absurd hw.1 (by decide)
+
+/-- the source has the guards the model's `bareName = false` stands for (regenerated by
+`tools/extract/reflect.go`; on the source before 6d5fecb this fails) -/
+theorem current_lookup_in_source :
+    Gen.Reflect.altRegisterNewCond = "c == nil || c.rtype != rt" ∧
+    Gen.Reflect.altRecompLookups =
+      ["c := r.composers[rv.Type().Name()]; c != nil && c.rtype == rv.Type() && c.any != nil",
+       "c := r.composers[rv.Type().Name()]; c != nil && c.rtype == rv.Type()"] := by
+  decide +kernel
+
+/-! ### the code before 6d5fecb -/
 
 /-- `struct{ Alpha string }` and `struct{ Beta int }`: two struct literal types, both named "" -/
 def anonA : GoType := .struct [] [] [(⟨"Alpha".toUTF8.toList, [], false⟩, .str)]
 def anonB : GoType := .struct [] [] [(⟨"Beta".toUTF8.toList, [], false⟩, .int 0)]
 def datumB : JV := .obj [("beta".toUTF8.toList, .int 5)]
 
-/-- on a fresh recomposer `{"beta":5}` gives `struct{Beta int}{5}`; after `struct{Alpha string}` was
-registered the same call gives `{0}`: the composer filed under "" is the other type's -/
-theorem history_witness :
+/-- on a fresh recomposer `{"beta":5}` gave `struct{Beta int}{5}`; after `struct{Alpha string}` was
+registered the same call gave `{0}`: the composer filed under "" was the other type's -/
+theorem history_witness_before :
     slotIs (recompose true [] (regAfter true [] []) anonB datumB) (.struct [.int 5]) = true ∧
     slotIs (recompose true [] (regAfter true [] [.register anonA]) anonB datumB) (.struct [.int 0]) = true := by
   decide +kernel
 
-theorem C16_history_full_false : ¬ C16_history_full := by
+theorem C16_history_full_before_false : ¬ C16_history_full_before := by
   intro h
   have h1 := h [] [] [.register anonA] anonB datumB
-  have hw := history_witness
+  have hw := history_witness_before
   rw [h1] at hw
   have : slotIs (recompose true [] (regAfter true [] [.register anonA]) anonB datumB) (.struct [.int 5]) = false := by
     decide +kernel
@@ -183,15 +237,15 @@ def anonNested : GoType :=
     .struct [] [] [(⟨"Alpha".toUTF8.toList, [], false⟩, .str), (⟨"Delta".toUTF8.toList, [], false⟩, .int 7)])]
 def datumNested : JV := .obj [("url".toUTF8.toList, .obj [("alpha".toUTF8.toList, .str [120]), ("delta".toUTF8.toList, .int 3)])]
 
-/-- without any history the inner fields are lost (Recompose(Decompose(v)) ≠ v), where the ideal
+/-- without any history the inner fields were lost (Recompose(Decompose(v)) ≠ v), where the ideal
 registry gives them back -/
-theorem nested_anonymous_loses_fields :
+theorem nested_anonymous_lost_fields_before :
     slotIs (recompose true [] [] anonNested datumNested) (.struct [.struct [.str [], .int 0]]) = true ∧
     slotIs (recomposePure [] anonNested datumNested) (.struct [.struct [.str [120], .int 3]]) = true := by
   decide +kernel
 
-/-- the repaired lookup decodes both witnesses correctly -/
-theorem repair_fixes_witnesses :
+/-- the code as it is now decodes both witnesses correctly -/
+theorem current_decodes_witnesses :
     slotIs (recompose false [] (regAfter false [] [.register anonA]) anonB datumB) (.struct [.int 5]) = true ∧
     slotIs (recompose false [] [] anonNested datumNested) (.struct [.struct [.str [120], .int 3]]) = true := by
   decide +kernel
